@@ -52,11 +52,14 @@ type immCfg struct {
 	ZeroCopyJSON bool
 	// Stream: Config.StreamRequestBody (a request body is a stream until it is first read)
 	Stream bool
+	// Via: how the capture route is reached — 0 straight from the request handler; 1 through a
+	// middleware that calls c.Next(); 2 through a middleware that first calls c.RestartRouting()
+	Via int
 }
 
 func (c immCfg) String() string {
-	return fmt.Sprintf("custom=%v cs=%v strict=%v unescape=%v proxy=%d split=%v reducemem=%v nested=%v zerocopyjson=%v stream=%v",
-		c.Custom, c.CaseSens, c.Strict, c.Unescape, c.Proxy, c.Split, c.ReduceMem, c.Nested, c.ZeroCopyJSON, c.Stream)
+	return fmt.Sprintf("custom=%v cs=%v strict=%v unescape=%v proxy=%d split=%v reducemem=%v nested=%v zerocopyjson=%v stream=%v via=%d",
+		c.Custom, c.CaseSens, c.Strict, c.Unescape, c.Proxy, c.Split, c.ReduceMem, c.Nested, c.ZeroCopyJSON, c.Stream, c.Via)
 }
 
 // body kinds
@@ -351,7 +354,7 @@ func genImmReq(r *gen.Rand, sh *immShape, idx int) *immReq {
 		raw.WriteString("Content-Encoding: " + sh.CEnc + "\r\n")
 	}
 	q.CType = ctype
-	q.Accept = "Text/HTML, Application/JSON;q=0.8, */*;q=0.1"
+	q.Accept = "Text/HTML;Level=1;q=0.9, Application/JSON;Version=2;Charset=UTF-8;q=0.8, */*;q=0.1"
 	raw.WriteString("Content-Type: " + ctype + "\r\n")
 	raw.WriteString("Accept: " + q.Accept + "\r\nAccept-Language: en-US, De;q=0.5\r\nAccept-Charset: UTF-8\r\nAccept-Encoding: GZip, Br\r\n")
 	raw.WriteString("Range: ru" + v["rgu"] + "=0-9\r\nIf-None-Match: W/\"" + v["xc"] + "\"\r\nCache-Control: Max-Age=0\r\nX-Requested-With: XMLHttpRequest\r\n")
@@ -592,7 +595,7 @@ func capture(c fiber.Ctx, q *immReq, cfg immCfg, s *capSet, matched, withResp bo
 	}
 	s.S("Get", c.Get("X-Custom"), v["xc"])
 	s.S("Get", c.Get(fiber.HeaderContentType), q.CType)
-	s.S("Get", c.Get(fiber.HeaderAccept), q.Accept)
+	s.S("Get.Accept", c.Get(fiber.HeaderAccept), q.Accept)
 	s.S("GetReqHeader[T]", fiber.GetReqHeader[string](c, "X-Custom"), v["xc"])
 	s.B("GetReqHeader[[]byte]", fiber.GetReqHeader[[]byte](c, "X-Custom"), []byte(v["xc"]), true)
 	hm := c.GetReqHeaders()
@@ -612,7 +615,7 @@ func capture(c fiber.Ctx, q *immReq, cfg immCfg, s *capSet, matched, withResp bo
 		case fiber.HeaderContentType:
 			s.L("GetReqHeaders.value", vals, []string{q.CType})
 		case fiber.HeaderAccept:
-			s.L("GetReqHeaders.value", vals, []string{q.Accept})
+			s.L("GetReqHeaders.value.Accept", vals, []string{q.Accept})
 		case rhk:
 			s.S("GetReqHeaders.key", k, rhk)
 			s.L("GetReqHeaders.value", vals, []string{v["hkv"], v["hkw"]})
@@ -919,6 +922,16 @@ func immBuild(cfg immCfg, immutable bool, side *immSide) *fiber.App {
 		})
 	}
 	side.app = app
+	if cfg.Via != 0 {
+		type restarted struct{}
+		app.Use(func(c fiber.Ctx) error {
+			if cfg.Via == 2 && c.Locals(restarted{}) == nil {
+				c.Locals(restarted{}, true)
+				return c.RestartRouting()
+			}
+			return c.Next()
+		})
+	}
 	app.Post("/nested", func(c fiber.Ctx) error { return c.SendString("nested " + strconv.Itoa(len(c.Body()))) })
 	app.Get("/named/:id", func(c fiber.Ctx) error { return c.SendString("named") }).Name("named")
 	app.Add([]string{fiber.MethodGet, fiber.MethodPost}, capRoute, func(c fiber.Ctx) error { return observe(c, true) })
@@ -1111,8 +1124,11 @@ func runImmutable(e *ev.Env) {
 	e.Cases("run", e.N(300, 20000), func(c *ev.Case) {
 		r := c.R
 		cfg := immCfg{Custom: r.Chance(1, 3), CaseSens: r.Bool(), Strict: r.Bool(), Unescape: r.Bool(), Proxy: r.Intn(5), Split: r.Bool(),
-			ReduceMem: r.Chance(1, 3), Nested: r.Chance(1, 3), ZeroCopyJSON: r.Chance(1, 3), Stream: r.Chance(1, 3)}
+			ReduceMem: r.Chance(1, 3), Nested: r.Chance(1, 3), ZeroCopyJSON: r.Chance(1, 3), Stream: r.Chance(1, 3), Via: r.PickW(2, 1, 1)}
 		sh := genShape(r)
+		if cfg.Via != 0 {
+			sh.Route = 0 // a catch-all middleware enters a route for every request
+		}
 		n := gen.Pick(r, []int{1, 3, 10})
 		judgeImm(e, c, cfg, sh, n, r)
 	})
@@ -1319,6 +1335,16 @@ func immCorpus(e *ev.Env) {
 		sh.Kind, sh.Route, sh.CEnc, sh.Chunked = "xml", 0, "", false
 		sh.Len["jb"] = 6000
 		judgeImm(e, c, immCfg{Stream: true}, sh, 3, c.R)
+	})
+	e.Corpus("customctx-route-behind-middleware", func(c *ev.Case) {
+		sh := genShape(c.R)
+		sh.Kind, sh.Route = "none", 0
+		judgeImm(e, c, immCfg{Custom: true, Via: 1}, sh, 1, c.R)
+	})
+	e.Corpus("customctx-route-after-restartrouting", func(c *ev.Case) {
+		sh := genShape(c.R)
+		sh.Kind, sh.Route = "form", 0
+		judgeImm(e, c, immCfg{Custom: true, Via: 2}, sh, 3, c.R)
 	})
 	e.Corpus("splitting-commas-form", func(c *ev.Case) {
 		sh := genShape(c.R)
